@@ -3,11 +3,16 @@ future combinators of `futures` (CatchUnwind, AndThen, MapOk, TryFold, stream::i
 as model futures.  A panic in user code is the Python exception `UserPanic`; only `CatchUnwind::poll` catches it -
 a panic that escapes to the harness is exactly a panic that would unwind out of the real run.
 """
+import re
+
 import z3
 
 from .values import UNIT, Cell, Lazy, Adt, Ref, FnItem, Obj, strip_ref, generic_args, bv, conc
 from .interp import Inconclusive, PathEnd
 from . import tables as T
+
+
+re_ws = re.compile(r'\s+')
 
 
 class UserPanic(Exception):
@@ -21,6 +26,29 @@ def register(M):
     reg = M.reg
     log = M.log
     M.UserPanic = UserPanic
+
+    # ---- panic payloads: `Box<dyn Any + Send>` whose content has a TYPE (String / &'static str / anything else).
+    # The type is a symbolic choice per payload, decided only if the code asks (`Box::downcast`).
+    PTYPES = ['String', "&'static str", 'other']
+
+    def panic_box(ex, tag):
+        return Obj('panic_payload', tag=tag, ty=z3.BitVec('payload_type(%s)' % tag, 64))
+    M.panic_box = panic_box
+    M.PTYPES = PTYPES
+
+    @reg('Box::downcast', '<impl>::downcast')
+    def _(ex, info, a, dty):
+        b = ex.materialize(a[0])
+        if not (isinstance(b, Obj) and b.kind == 'panic_payload'):
+            raise Inconclusive('Box::downcast on %r' % (b,))
+        want = (info.get('generics') or ['?'])[-1].strip('<>').strip()
+        want = re_ws.sub(' ', want)
+        idx = 0 if want.endswith('String') else 1 if want.replace("'static ", '') in ('&str', "&'static str") or want == "&'static str" else None
+        ex.add(z3.ULT(b.ty, bv(len(PTYPES))))
+        if idx is not None and ex.branch(b.ty == bv(idx)):
+            boxed = Ref(Cell(Obj('payload_value', tag=b.tag, ty=PTYPES[idx]), name='downcast'), ())
+            return Adt(dty or 'Result<Box<T>, Box<dyn Any>>', {(0, 0): boxed}, 0)
+        return Adt(dty or 'Result<Box<T>, Box<dyn Any>>', {(1, 0): b}, 1)
 
     @reg('FutureExt::catch_unwind')
     def _(ex, info, a, dty):
@@ -83,7 +111,7 @@ def register(M):
                 r = ex.materialize(M.poll_cell(ex, v.inner, cx, 'Poll<?>'))
             except UserPanic as p:
                 log(ex, 'panic_caught', payload=p.payload, where=p.where)
-                return M.poll_ready(dty, err(Obj('panic_payload', tag=p.payload)))
+                return M.poll_ready(dty, err(M.panic_box(ex, p.payload)))
             if ex.branch(M.discr(ex, r) == bv(0)):
                 return M.poll_ready(dty, ok(ex.field_of(r, 0, 0, '?')))
             return M.poll_pending(dty)
